@@ -78,6 +78,61 @@ theorem spec_periodic_prefix {α : Type} [TrigField α] (k : Kind) (a : α) (n :
 theorem alpha_defaults (k : Kind) : alphaDefault (α := α) k.sname = k.alphaDefault :=
   alphaDefault_sname k
 
+/-! ### histories: the strategies are functions of the arguments of each call -/
+
+/-- **every call of a history on its own**: whatever calls were made before, whatever the caller did in
+    place (`Step.change`, ANY function — append the first sample, scale, sort, clear …) with whichever
+    list object it holds (`Step.target`), from whatever store, the `k`-th call of a history returns what
+    `call` returns for the arguments of that call alone. -/
+theorem history_outcomes (steps : List (Step α)) (h : Heap α) :
+    (runHistory steps h).1.map Prod.fst = steps.map Step.call := by
+  induction steps generalizing h with
+  | nil => rfl
+  | cons s rest ih => simp [runHistory, ih]
+
+/-- the store only grows: one new object per call that returns, none rewritten away -/
+theorem history_store_length (steps : List (Step α)) (h : Heap α) :
+    h.length ≤ (runHistory steps h).2.length := by
+  induction steps generalizing h with
+  | nil => exact Nat.le_refl _
+  | cons s rest ih =>
+    simp only [runHistory]
+    refine Nat.le_trans ?_ (ih _)
+    rw [List.length_modify]
+    split <;> simp
+
+/-- **a new list object on every call**: the identities of the lists returned along a history are
+    pairwise different, and none is an object that existed before the history. -/
+theorem history_fresh_objects (steps : List (Step α)) (h : Heap α) :
+    ((runHistory steps h).1.filterMap Prod.snd).Pairwise (· < ·) ∧
+    ∀ i ∈ (runHistory steps h).1.filterMap Prod.snd, h.length ≤ i := by
+  induction steps generalizing h with
+  | nil => simp [runHistory]
+  | cons s rest ih =>
+    simp only [runHistory]
+    cases hr : s.call with
+    | err k =>
+      have := ih (List.modify h s.target s.change)
+      simpa [List.length_modify] using this
+    | ok xs =>
+      have := ih (List.modify (h ++ [xs]) s.target s.change)
+      simp only [List.length_modify, List.length_append, List.length_singleton] at this
+      show (h.length :: _).Pairwise (· < ·) ∧ ∀ i ∈ (h.length :: _), h.length ≤ i
+      refine ⟨List.pairwise_cons.2 ⟨fun i hi => ?_, this.1⟩, fun i hi => ?_⟩
+      · have := this.2 i hi; omega
+      · rcases List.mem_cons.1 hi with rfl | hi
+        · exact Nat.le_refl _
+        · have := this.2 i hi; omega
+
+/-- in particular: the second of two calls with the same arguments returns the same samples in a
+    different object, whatever was done to the first -/
+theorem history_repeat (s t : Step α) (h : Heap α)
+    (hd : t.d = s.d) (hn : t.name = s.name) (hs : t.size = s.size) (ha : t.alpha = s.alpha) (xs : List α)
+    (hx : s.call = .ok xs) :
+    (runHistory [s, t] h).1 = [(.ok xs, some h.length), (.ok xs, some (h.length + 1))] := by
+  have ht : t.call = .ok xs := by rw [← hx]; simp [Step.call, hd, hn, hs, ha]
+  simp [runHistory, hx, ht, List.length_modify]
+
 end anyClass
 
 /-! ## Part 2 — the registry and the cross-links (finite, by evaluation of the model) -/
@@ -308,6 +363,14 @@ example : call (α := ℝ) .window (some "blackman") 8 (some (1/4)) = .ok (perio
 example : generated.wsymm.get "rect" = generated.window.get "rect" := by decide
 example : (1 : ℕ) < 3 ∧ (Kind.hann = .hann ∨ Kind.hann = .hamming ∨ Kind.hann = .bartlett ∨ Kind.hann = .rect) :=
   ⟨by decide, Or.inl rfl⟩
+-- a history: `p = window.hann(4); p.append(p[0])` (here: `change` on object 0), then `window.hann(4)` again
+example : ((runHistory (α := ℝ)
+      [{ d := .window, name := some "hann", size := 4, alpha := none, target := 0, change := fun p => p ++ p.take 1 },
+       { d := .window, name := some "hann", size := 4, alpha := none, target := 0, change := id }] []).1.map Prod.snd)
+    = [some 0, some 1] := by
+  have h : call (α := ℝ) .window (some "hann") 4 none = _ :=
+    call_eq_spec false .hann "hann" (by decide) (by decide) 4 none
+  simp [runHistory, Step.call, h, specList]
 
 end ALV.Props.C14
 
